@@ -16,6 +16,8 @@ public:
   virtual double get_delta() const = 0;
   /// @brief Update trust region and determine if step is taken.
   virtual bool step_and_update(const double rho) = 0;
+  /// @brief Restore the initial trust region (called when a new problem is started).
+  virtual void reset() {}
 };
 
 /**
@@ -39,6 +41,11 @@ public:
       m_reduce *= 2;
       return false;
     }
+  }
+  inline void reset() override
+  {
+    m_delta  = 10000;
+    m_reduce = 2;
   }
 
 private:
@@ -66,6 +73,7 @@ public:
       return false;
     }
   }
+  inline void reset() override { m_delta = 1000; }
 
 private:
   double m_delta{1000};
